@@ -482,6 +482,48 @@ def r_nodup(rep, src):
             rep.ok('C10.R5', fn.site, what, '→ %s' % ' '.join(order))
 
 
+def r_nodup_histories(rep, src):
+    """two operations in a row on the unique-field paragraph: what the first leaves behind (a flag, a cache) must not make the second
+    skip its duties -- a field replaced in place, then a new field: the new field still goes after a *terminated* last field"""
+    A, B, C, Z = H.Key('a', 'A'), H.Key('b', 'B'), H.Key('c', 'C'), H.Key('z', 'Z')
+    for first_key, first_label in ((A, 'replace A'), (B, 'replace B'), (C, 'replace C')):
+        log = []
+        heap = mk_heap(src, log)
+        keys = [A, B, C]
+        lst, nodes = H.build_list(heap, keys)
+        table = heap.new_dict('@table')
+        for k, n_ in zip(keys, nodes):
+            heap.objs[table.name]['entries'].append((k, n_))
+        oset = heap.alloc('OrderedSet', {'_OrderedSet__table': table, '_OrderedSet__order': lst}, name='@set')
+        d = heap.new_dict('@elements')
+        for k in keys:
+            heap.objs[d.name]['entries'].append((k, mk_kv(heap, k, k.cls + '0')))
+        para = heap.alloc(NOD, {'_kvpair_order': oset, '_kvpair_elements': d, 'parent_element': None}, name='@para')
+
+        def new_kv(k, tag):
+            return heap.alloc('KV', {'field_name': k, 'field_token': heap.alloc('Deb822FieldNameToken', {'text': k}), 'parent_element': None,
+                                     'value_element': heap.alloc('VE', {}, name='@ve_' + tag)}, name='@kv_' + tag)
+        fn = heap.module.method(NOD, 'set_kvpair_element')
+        rep.saw_func(fn)
+        it = H.Interp(heap)
+        what = '%s, then add Z, on unique fields [A B C]' % first_label
+        try:
+            it.call(H.Closure(fn.node, {}, para, fn.cls), [first_key, new_kv(first_key, 'R')])
+            heap.mark()
+            v1 = heap.version
+            n_before = len([e for e in log if e[0] == 'newline'])
+            it.call(H.Closure(fn.node, {}, para, fn.cls), [Z, new_kv(Z, 'NEW')])
+        except H.Raised as x:
+            rep.fail('C10.R5', fn.site, what, 'raises %s (line %d)' % (x.exc, x.lineno), where=fn.where)
+            continue
+        nl = [e for e in log if e[0] == 'newline'][n_before:]
+        if nl and nl[0][2] == v1:
+            rep.ok('C10.R5', fn.site, what, 'the last field is terminated before the new one is placed')
+        else:
+            rep.fail('C10.R5', fn.site, what, 'after a field was replaced in place, a new field is placed after the last field without first supplying its final newline: on a '
+                     'document without final newline the new field is glued to the last value ("Priority: optionalHomepage: ...")', where=fn.where)
+
+
 def mk_para(heap, name):
     d = heap.new_dict()
     heap.objs[d.name]['entries'].append((H.Key('x', 'X'), None))
@@ -765,6 +807,7 @@ def check(src, rep, tier):
     rep.guard('C10.R5', r5b_replace_all_by_occurrence, src)
     rep.guard('C10.R5', r5c_replace_one_by_occurrence, src)
     rep.guard('C10.R1', r_nodup, src)
+    rep.guard('C10.R5', r_nodup_histories, src)
     rep.guard('C10.R4', r4_file_insert_append, src)
     rep.guard('C10.R2', r_sort, src)
     rep.guard('C10.R6', r6_replaced_occurrence, src)
